@@ -145,12 +145,14 @@ SDMXNorms(s) == IF s.kind = "none" THEN <<>>
 \* ------------------------------------------------------------------ fractional Laplacian settings
 \* f = [present, s2 (seq of 2*s), nk0, nk1, dots, nd1, ndd]
 FLValid(f) == ~f.present \/ (/\ f.nk0 <= Len(f.s2) /\ f.nk1 <= Len(f.s2) /\ f.nd1 <= Len(f.s2)
-                             /\ f.ndd <= f.nd1 /\ DotsOK(f.dots, f.nk1))
-FLNFeat(f) == IF f.present THEN f.nk0 + Len(f.dots) + f.ndd ELSE 0
+                             /\ f.ndd <= f.nd1 /\ DotsOK(f.dots, f.nk1) /\ DotsOK(f.lddots, f.nd1))
+FLNFeat(f) == IF f.present THEN f.nk0 + Len(f.dots) + Len(f.lddots) + f.ndd ELSE 0
 FLBase(f, d) == IF d = -1 THEN 3 ELSE 3 + f.s2[d + 1]
 FLUsps(f) == IF ~f.present THEN <<>>
              ELSE [k \in 1..f.nk0 |-> 3 + f.s2[k]] \o
                   [k \in 1..Len(f.dots) |-> FLBase(f, f.dots[k][1]) + FLBase(f, f.dots[k][2]) + 2] \o
+                  \* contractions of the derivative vectors F^d (ld_dots): their own group, same power law, AFTER the l1 group
+                  [k \in 1..Len(f.lddots) |-> FLBase(f, f.lddots[k][1]) + FLBase(f, f.lddots[k][2]) + 2] \o
                   [k \in 1..f.ndd |-> 3 + f.s2[k] + 2]
 
 \* ------------------------------------------------------------------ FeatureSettings
